@@ -1,0 +1,49 @@
+//! Verification hooks: native access to the private configuration conversion, metrics
+//! shaping and the body of `Rewriter::rewrite` minus its `JsValue` conversions
+//! (compiled only with `--cfg datadog_dd_native_iast_rewriter_js_verif`).
+use super::*;
+
+pub use super::{Metrics, Result as WasmResult};
+
+/// Mirrors `Rewriter::new`: a configuration that does not deserialize falls back to the default.
+pub fn config_from<'de, D: serde::Deserializer<'de>>(deserializer: D) -> Config {
+    RewriterConfig::deserialize(deserializer)
+        .unwrap_or(RewriterConfig::default())
+        .to_config()
+}
+
+pub fn metrics_of(status: Option<TransformStatus>, file: &str) -> Option<Metrics> {
+    get_metrics(status, file)
+}
+
+/// Mirrors `Rewriter::rewrite` up to (not including) the conversion to `JsValue`.
+pub fn rewrite_native<R: Read>(
+    config: &Config,
+    code: String,
+    file: &str,
+    file_reader: &impl FileReader<R>,
+) -> std::result::Result<WasmResult, String> {
+    rewrite_js(code, file, config, file_reader)
+        .map(|result| WasmResult {
+            content: print_js(
+                &result.code,
+                &result.source_map,
+                &result.original_source_map,
+                config,
+            )
+            .into_owned(),
+            metrics: get_metrics(result.transform_status, file),
+            literals_result: result.literals_result,
+        })
+        .map_err(|e| format!("{e}"))
+}
+
+/// Mirrors `Rewriter::csiMethods`.
+pub fn csi_methods_of(config: &Config) -> Vec<String> {
+    config
+        .csi_methods
+        .methods
+        .iter()
+        .map(|csi_method| csi_method.dst.clone())
+        .collect::<Vec<String>>()
+}
